@@ -71,3 +71,70 @@ def like_scenarios(repo, regs, types_env=None):
                         f"{label}: the implementation builds {str(bad[0])[:160] if bad else ''} - a LIKE pattern without autoescape / escape: `%`, `_` in the "
                         "value act as wildcards (the same pattern matches literally on Polars)", True))  # fmt: skip
     return out
+
+
+# ---- value level ---------------------------------------------------------------------------------------------------------------
+SAMPLE_PATTERNS = ("", "a", "ab", "b", "%", "_", "a%", "\\")
+SAMPLE_VALUES = (None, "", "a", "ab", "ba", "abab", "a%", "%", "_b", "xb", "a\\", "b%a")
+PY_SPEC = {
+    "str_starts_with": lambda x, y: x.startswith(y),
+    "str_ends_with": lambda x, y: x.endswith(y),
+    "str_contains": lambda x, y: y in x,
+}
+DIALECT_OF = {"SqliteImpl": "sqlite", "PostgresImpl": "postgresql", "DuckDbImpl": "duckdb", "MsSqlImpl": "mssql", "SqlImpl": "postgresql"}
+
+
+def like_value_scenarios(repo, regs, types_env=None):
+    """every SQL implementation of starts_with / ends_with / literal contains, interpreted with each sample pattern (a python
+    string: the empty string, one / two characters, the LIKE wildcards, a backslash) and the term it builds *evaluated* for each
+    sample value (sqleval: LIKE with its escape, SQLite's substr / instr / length as documented) against Python's
+    str.startswith / endswith / in; NULL gives NULL.  Lower-case samples only (SQLite's LIKE ignores ASCII case, a documented
+    deviation).  A function sqleval does not know leaves the combination undecided.
+    -> list of (registration, description, ok, detail, decided)"""
+    from . import sqleval
+    from .program import Program
+
+    p = Program(repo, types_env, primary="backend.sql")
+    out = []
+    for r in regs:
+        if r.opvar not in LIKE_OPS or "Polars" in r.store:
+            continue
+        dialect = DIALECT_OF.get(r.store)
+        if dialect is None:
+            continue
+        env = p.env_of(r.module)
+        f = Func(r.func, env, p.it)
+        params = [a.arg for a in r.func.args.args]
+        spec = PY_SPEC[r.opvar]
+        n_eval, bad, unknown = 0, None, None
+        for pat in SAMPLE_PATTERNS:
+            try:
+                t = p.call(f, [Var("x"), pat] + [False] * (len(params) - 2))
+            except PyRaise:
+                continue  # refused: no statement
+            except (AnalysisError, SymbolicBranch) as e:
+                unknown = f"not interpreted: {str(e)[:100]}"
+                break
+            for x in SAMPLE_VALUES:
+                try:
+                    got = sqleval.evaluate(t, {"x": x}, dialect)
+                except sqleval.Unknown as e:
+                    unknown = str(e)[:100]
+                    break
+                want = None if x is None else spec(x, pat)
+                n_eval += 1
+                if got != want and bad is None:
+                    bad = (x, pat, got, want, t)
+            if unknown:
+                break
+        label = f"{r.store}: ops.{r.opvar} evaluated for {len(SAMPLE_PATTERNS)} patterns x {len(SAMPLE_VALUES)} values"
+        if unknown:
+            out.append((r, label, True, unknown, False))
+            continue
+        detail = ""
+        if bad:
+            x, pat, got, want, t = bad
+            detail = (f"{r.store}: `{r.opvar.replace('str_', 'str.')}` of the value {x!r} with the pattern {pat!r} compiles to {str(t)[:140]}, which is {got!r} "
+                      f"under {dialect}'s semantics; Polars / Python give {want!r}")
+        out.append((r, label, bad is None, detail, True))
+    return out
